@@ -53,7 +53,79 @@ type ConcState struct {
 	// slices: the part of a root slice parameter that a slice (or string converted from it) value denotes on this
 	// path, when its bounds are evident (ConcCfg.SliceLen fixes the parameter's length)
 	slices map[ssa.Value]SliceFact
-	cfg    *ConcCfg
+	// dyn: what an interface value holds on this path (ConcCfg.Init seeds it for parameters): its dynamic type and,
+	// for an integer-like payload, the value. Shared between the states of one exploration (never changed after Init).
+	dyn map[ssa.Value]DynFact
+	cfg *ConcCfg
+}
+
+// DynFact: the dynamic type of an interface value (Typ == nil: some type that none of the code's assertions to a
+// concrete type names) and its integer payload when it has one.
+type DynFact struct {
+	Typ  types.Type
+	K    int64
+	HasK bool
+}
+
+// SetNil / SetInt / SetDyn seed facts about a value (ConcCfg.Init).
+func (st *ConcState) SetNil(v ssa.Value, isNil bool) { st.nils[v] = isNil }
+func (st *ConcState) SetInt(v ssa.Value, k int64)    { st.ints[v] = k }
+func (st *ConcState) SetDyn(v ssa.Value, f DynFact) {
+	if st.dyn == nil {
+		st.dyn = map[ssa.Value]DynFact{}
+	}
+	st.dyn[v] = f
+	st.nils[v] = false
+}
+
+// DynOf: what is known about the dynamic type of interface value v on this path.
+func (st *ConcState) DynOf(v ssa.Value) (DynFact, bool) {
+	for k := 0; k < 16 && v != nil; k++ {
+		if f, ok := st.dyn[v]; ok {
+			return f, true
+		}
+		switch x := v.(type) {
+		case *ssa.ChangeInterface:
+			v = x.X
+			continue
+		case *ssa.ChangeType:
+			v = x.X
+			continue
+		case *ssa.MakeInterface:
+			f := DynFact{Typ: x.X.Type()}
+			if kv, ok := st.eval(x.X, 0); ok {
+				f.K, f.HasK = kv, true
+			}
+			return f, true
+		}
+		nx := st.alias[v]
+		if nx == nil {
+			break
+		}
+		v = nx
+	}
+	return DynFact{}, false
+}
+
+// assertOK: whether v.(T) succeeds on this path, when evident.
+func (st *ConcState) assertOK(x *ssa.TypeAssert) (ok, known bool) {
+	if n, kn := st.IsNil(x.X); kn && n {
+		return false, true
+	}
+	f, has := st.DynOf(x.X)
+	if !has {
+		return false, false
+	}
+	if _, isIface := types.Unalias(x.AssertedType).Underlying().(*types.Interface); isIface {
+		if f.Typ == nil {
+			return false, false
+		}
+		return types.Implements(f.Typ, types.Unalias(x.AssertedType).Underlying().(*types.Interface)), true
+	}
+	if f.Typ == nil {
+		return false, true // a type none of the assertions names
+	}
+	return types.Identical(f.Typ, x.AssertedType), true
 }
 
 // SliceFact: the value is Base[Lo:Hi] (Base a slice parameter of the explored function).
@@ -138,7 +210,7 @@ func localCell(a *ssa.Alloc, captured bool) bool {
 	for _, r := range *a.Referrers() {
 		switch x := r.(type) {
 		case *ssa.MakeClosure:
-			if !captured {
+			if !captured && !readOnlyCapture(x, a, 0) {
 				// still fine when the literal is only ever deferred or called on the spot: it is then explored inline
 				if x.Referrers() == nil {
 					return false
@@ -181,8 +253,42 @@ func localCell(a *ssa.Alloc, captured bool) bool {
 	return true
 }
 
+// readOnlyCapture: the function literal mk captures variable cell v and (with the literals nested in it) only ever
+// loads from it - whenever it runs, it cannot change what the enclosing function sees in v.
+func readOnlyCapture(mk *ssa.MakeClosure, v ssa.Value, depth int) bool {
+	f, ok := mk.Fn.(*ssa.Function)
+	if !ok || depth > 4 {
+		return false
+	}
+	for i, b := range mk.Bindings {
+		if b != v || i >= len(f.FreeVars) {
+			continue
+		}
+		fv := f.FreeVars[i]
+		if fv.Referrers() == nil {
+			continue
+		}
+		for _, r := range *fv.Referrers() {
+			switch y := r.(type) {
+			case *ssa.UnOp:
+				if y.Op != token.MUL {
+					return false
+				}
+			case *ssa.MakeClosure:
+				if !readOnlyCapture(y, fv, depth+1) {
+					return false
+				}
+			case *ssa.DebugRef:
+			default:
+				return false
+			}
+		}
+	}
+	return true
+}
+
 func (st *ConcState) clone() *ConcState {
-	n := &ConcState{ints: make(map[ssa.Value]int64, len(st.ints)+2), nils: make(map[ssa.Value]bool, len(st.nils)+2), syms: make(map[ssa.Value]string, len(st.syms)+2), alias: make(map[ssa.Value]ssa.Value, len(st.alias)+2), mem: make(map[*ssa.Alloc]ssa.Value, len(st.mem)+1), cfg: st.cfg}
+	n := &ConcState{ints: make(map[ssa.Value]int64, len(st.ints)+2), nils: make(map[ssa.Value]bool, len(st.nils)+2), syms: make(map[ssa.Value]string, len(st.syms)+2), alias: make(map[ssa.Value]ssa.Value, len(st.alias)+2), mem: make(map[*ssa.Alloc]ssa.Value, len(st.mem)+1), cfg: st.cfg, dyn: st.dyn}
 	for k, v := range st.alias {
 		n.alias[k] = v
 	}
@@ -375,6 +481,28 @@ func (st *ConcState) eval(v ssa.Value, d int) (int64, bool) {
 					return bi(n == (x.Op == token.EQL))
 				}
 			}
+			if _, isIface := types.Unalias(x.X.Type()).Underlying().(*types.Interface); isIface {
+				// two interface values: equal when both are nil, or hold the same type and the same payload
+				nx, kx := st.IsNil(x.X)
+				ny, ky := st.IsNil(x.Y)
+				if kx && ky && (nx || ny) {
+					return bi((nx && ny) == (x.Op == token.EQL))
+				}
+				fx, hx := st.DynOf(x.X)
+				fy, hy := st.DynOf(x.Y)
+				if hx && hy && kx && ky {
+					switch {
+					case fx.Typ == nil || fy.Typ == nil:
+						if fx.Typ != nil || fy.Typ != nil {
+							return bi(x.Op != token.EQL) // one holds a type the code does not name, the other a named one
+						}
+					case !types.Identical(fx.Typ, fy.Typ):
+						return bi(x.Op != token.EQL)
+					case fx.HasK && fy.HasK:
+						return bi((fx.K == fy.K) == (x.Op == token.EQL))
+					}
+				}
+			}
 		}
 		l, ok1 := st.eval(x.X, d+1)
 		r, ok2 := st.eval(x.Y, d+1)
@@ -452,6 +580,8 @@ type ConcCfg struct {
 	SliceLen func(p *ssa.Parameter) (int64, bool)
 	// MaxDepth: how many helper frames deep calls are explored inline (default 5).
 	MaxDepth int
+	// Init seeds facts about the parameters of the explored function (SetNil, SetInt, SetDyn).
+	Init func(st *ConcState)
 	// InitFields: what integer/boolean fields of objects reachable from the parameters hold on entry.
 	InitFields []FieldVal
 	// SliceLenOf does the same for a string/slice read from a field (identified by its rendering, e.g. "ec.File").
@@ -989,7 +1119,29 @@ func ConcPaths(fn *ssa.Function, cfg ConcCfg) (seqs []string, truncated bool) {
 						st.slices[x] = SliceFact{Base: f.Base, Key: f.Key, Lo: lo, Hi: hi}
 					}
 				}
+			case *ssa.TypeAssert:
+				if !x.CommaOk {
+					if ok, known := st.assertOK(x); known && ok {
+						if f, has := st.DynOf(x.X); has && f.HasK && f.Typ != nil && types.Identical(f.Typ, x.AssertedType) {
+							st = st.clone()
+							st.ints[x] = f.K
+						}
+					}
+				}
 			case *ssa.Extract:
+				if ta, isTA := x.Tuple.(*ssa.TypeAssert); isTA {
+					if ok, known := st.assertOK(ta); known {
+						st = st.clone()
+						if x.Index == 1 {
+							st.ints[x] = 0
+							if ok {
+								st.ints[x] = 1
+							}
+						} else if f, has := st.DynOf(ta.X); ok && has && f.HasK && f.Typ != nil && types.Identical(f.Typ, ta.AssertedType) {
+							st.ints[x] = f.K
+						}
+					}
+				}
 				if call, ok := x.Tuple.(*ssa.Call); ok {
 					if res, has := st.tup[call]; has && x.Index < len(res) {
 						ns := st.clone()
@@ -1051,6 +1203,19 @@ func ConcPaths(fn *ssa.Function, cfg ConcCfg) (seqs []string, truncated bool) {
 							ns.nils[x] = n
 						}
 						st = ns
+					} else if fa := x.X.(*ssa.FieldAddr); true {
+						// the struct is a whole copy of another one whose field is known
+						if kv, isInt, fv := st.FieldOf(fa.X, fieldName(fa.X.Type(), fa.Field)); isInt {
+							st = st.clone()
+							st.ints[x] = kv
+						} else if fv != nil {
+							ns := st.clone()
+							ns.alias[x] = fv
+							if n, ok := st.IsNil(fv); ok {
+								ns.nils[x] = n
+							}
+							st = ns
+						}
 					}
 				}
 			case *ssa.Call:
@@ -1361,6 +1526,9 @@ func ConcPaths(fn *ssa.Function, cfg ConcCfg) (seqs []string, truncated bool) {
 		}
 	}
 	st := &ConcState{ints: map[ssa.Value]int64{}, nils: map[ssa.Value]bool{}, syms: map[ssa.Value]string{}, alias: map[ssa.Value]ssa.Value{}, mem: map[*ssa.Alloc]ssa.Value{}, cfg: &cfg}
+	if cfg.Init != nil {
+		cfg.Init(st)
+	}
 	for _, fv := range cfg.InitFields {
 		if st.fmem == nil {
 			st.fmem = map[string]int64{}
